@@ -88,7 +88,7 @@ def validate(number, strip_check_digits=False, add_check_digits=False):
             raise InvalidFormat()
     # check length of all components
     if len(root) != 12 or len(episode) != 4 or len(check1) not in (0, 1) or \
-       len(version) not in (0, 8) or len(check1) not in (0, 1):
+       len(version) not in (0, 8) or len(check2) not in (0, 1):
         raise InvalidLength()
     # allow removing check digits
     if strip_check_digits:
